@@ -78,19 +78,36 @@ def vttTags (start : Bool) (f : Flags) : Str :=
   else
     (if f.bold then "</b>".toList else []) ++ (if f.underline then "</u>".toList else []) ++ (if f.italics then "</i>".toList else [])
 
+/-- the `[opening, closing]` tag pairs of a style node, in the order the writer goes through them
+    (italics, underline, bold for an opening node; reversed for a closing one) -/
+def vttTagPairs (start : Bool) (f : Flags) : List (Str × Str) :=
+  let l := (if f.italics then [("<i>".toList, "</i>".toList)] else []) ++ (if f.underline then [("<u>".toList, "</u>".toList)] else [])
+    ++ (if f.bold then [("<b>".toList, "</b>".toList)] else [])
+  if start then l else l.reverse
+
+/-- remove the innermost (last) occurrence of a pair from the stack of open tags -/
+def removeLast (t : Str × Str) (l : List (Str × Str)) : List (Str × Str) := (l.reverse.erase t).reverse
+
 structure GState where
   groups : List (Str × Nat) := []
   s : Str := []
   cur : Nat := 0
   prevIsText : Bool := false
   first : Bool := true
+  /-- style tags open at this point of the cue text, innermost last -/
+  openTags : List (Str × Str) := []
 
 def vttStep (st : GState) : LNode → GState
   | .text t lay =>
-    let (groups, s) := if !st.s.isEmpty && st.cur ≠ 0 && lay ≠ st.cur then (st.groups ++ [(st.s, st.cur)], []) else (st.groups, st.s)
+    -- a new cue for a new layout: the open tags are closed in the cue that ends and opened again in the new one
+    let (groups, s) := if !st.s.isEmpty && st.cur ≠ 0 && lay ≠ st.cur then
+        (st.groups ++ [(st.s ++ (st.openTags.reverse.flatMap (·.2)), st.cur)], st.openTags.flatMap (·.1)) else (st.groups, st.s)
     let enc := vttEncode t
-    { groups := groups, s := s ++ (if enc.isEmpty then "&nbsp;".toList else enc), cur := lay, prevIsText := true, first := false }
-  | .style start f => { st with s := st.s ++ vttTags start f, prevIsText := false, first := false }
+    { st with groups := groups, s := s ++ (if enc.isEmpty then "&nbsp;".toList else enc), cur := lay, prevIsText := true, first := false }
+  | .style start f =>
+    let pairs := vttTagPairs start f
+    { st with s := st.s ++ vttTags start f, prevIsText := false, first := false,
+              openTags := if start then st.openTags ++ pairs else pairs.foldl (fun acc t => removeLast t acc) st.openTags }
   | .brk =>
     let s := if !st.first && !st.prevIsText then st.s ++ "&nbsp;".toList else st.s
     let s := if st.first then s ++ "&nbsp;".toList else s
